@@ -125,7 +125,8 @@ def run(ctx):
             e["wit"] = {k: x[k] for k in ("k", "pid", "pc", "sub")}
     ctx.cov["spec_pairs"] = {"records": len(recs), "distinct_pairs": len(table),
                              "not_commuting": sum(1 for e in table.values() if not e["commute"]),
-                             "type_pairs": len({(e["v1"]["t"], e["v2"]["t"]) for e in table.values()})}
+                             "type_pairs": len({(e["v1"]["t"], e["v2"]["t"]) for e in table.values()}),
+                             "enabling_pairs": sum(1 for e in table.values() if "en" in e["views"])}
     if not table:
         raise vlib.InfraError("SgKernelCommute printed no pair")
     _judge(ctx, table, progs, "spec")
